@@ -155,7 +155,11 @@ def translators_by_meaning(ctx):
         for pat, yes, no in (("k" + any_run + "m", ["km", "kxm", "kxyzm", "KXM", "k.m"], ["k", "xkm", "kmx", "kx"]),
                              ("k" + one + "m", ["kxm", "k.m", "KXM"], ["km", "kxym", "xkxm", "kxmx"]),
                              (any_run + ".txt", ["a.txt", ".txt", "A.TXT"], ["atxt", "a.txtx", "a.tx"]),
-                             (any_run, ["", "anything"], []), (one, ["x"], ["", "xy"])):
+                             (any_run, ["", "anything"], []), (one, ["x"], ["", "xy"]),
+                             # adjacent wildcards keep their own meaning: each `?` / `_` still takes exactly one character
+                             ("k" + one + any_run + "m", ["kxm", "kxyzm"], ["km", "k", "kx"]), ("k" + any_run + one + "m", ["kxm", "kxyzm"], ["km"]),
+                             ("k" + one + one + "m", ["kxym"], ["kxm", "km", "kxyzm"]), (one + any_run + one, ["xy", "xyz"], ["x", ""]),
+                             ("k" + any_run + any_run + "m", ["km", "kxm"], ["k", "kmx"])):
             rx = translate(ctx, fn, pat)
             n += 1
             try:
